@@ -498,13 +498,9 @@ pub fn check_case(case: &Case) -> CheckResult {
                     "validate() output differs between two runs of the same project ({} vs {}): {}",
                     case.expect["a"], case.expect["b"], first_diff(&a.output, &b.output)
                 );
-                let wa = winner(a, &dup_ids);
-                let wb = winner(b, &dup_ids);
-                if !dup_ids.is_empty() && wa.is_some() && wa != wb {
-                    r.fail_known(msg, KEY_DUP);
-                } else {
-                    r.fail(msg);
-                }
+                // (the one-key-two-kinds defect was repaired by 74eb68d: nothing is excused any more)
+                let _ = &dup_ids;
+                r.fail(msg);
             }
         }
         (Err(e), _) | (_, Err(e)) => r.fail(format!("library panicked: {e}")),
@@ -603,7 +599,7 @@ pub fn run(tier: Tier, seed: u64) -> i32 {
                             sorted.sort();
                             cover.entry((site.clone(), sorted)).or_default().insert(keys.clone());
                         }
-                        let group = if dup_ids.is_empty() { String::new() } else { winner(run, &dup_ids).unwrap_or_default() };
+                        let group = String::new(); // one reference per project: every difference is a violation
                         let mk = |a: &serde_json::Value, b: &serde_json::Value| Case {
                             prop: PROP.into(),
                             kind: proj.name.into(),
@@ -626,7 +622,7 @@ pub fn run(tier: Tier, seed: u64) -> i32 {
                                         stats.violation(Violation {
                                             case: mk(at0, &here),
                                             message: format!("validate() output depends on which of the files registering one key comes last in the file map: {}", first_diff(out0, &run.output)),
-                                            finding_key: Some(KEY_DUP.into()),
+                                            finding_key: None,
                                         });
                                     }
                                 }
